@@ -654,6 +654,80 @@ theorem snapshot_eq_matching_partial (ridOf : Key → Nat) (srt : List Entry →
     simp only [Option.filter, hp, if_true, Option.map_some] at this
     exact (mem_of_kget _ _ _ _ this).1
 
+theorem zip_tail_of_pairwise {α : Type} (R : α → α → Prop) (l : List α) (h : l.Pairwise R) :
+    ∀ p ∈ l.zip l.tail, R p.1 p.2 := by
+  induction l with
+  | nil => intro p hp; simp at hp
+  | cons a t ih =>
+    rw [List.pairwise_cons] at h
+    cases t with
+    | nil => intro p hp; simp at hp
+    | cons b u =>
+      intro p hp
+      simp only [List.tail_cons, List.zip_cons_cons, List.mem_cons] at hp
+      rcases hp with rfl | hp
+      · exact h.1 b List.mem_cons_self
+      · exact ih h.2 p (by simpa using hp)
+
+/-- **the oracle is the theorem**: what the driver's `oracle snap` line evaluates
+(`snapshotExact`: same number of elements as matching objects, every matching key present, strictly
+increasing in the documented key, every element the filtered image of a matching object) holds of
+the model's `Snapshot()` in every state covered by `snapshot_eq_matching_partial` — so an `oracle`
+line answering `false` on the implementation's output is a counterexample to the property the
+theorems state, not to some other predicate. -/
+theorem oracle_snap_sound (ridOf : Key → Nat) (hinj : ∀ a b : Key, ridOf a = ridOf b → a = b)
+    (srt : List Entry → List Entry) (hs : SortContract ridOf srt)
+    (mc : MonCfg) (w0 : World) (hw0 : KeysNodup Obj.key w0.objs) (rest : List MStep) :
+    snapshotExact ridOf mc (runMonitor mc w0 (.start :: rest)).w
+      ((runMonitor mc w0 (.start :: rest)).m.snapshot srt) = true := by
+  have hmem := snapshot_eq_matching_partial ridOf srt hs mc w0 hw0 rest
+  obtain ⟨hnd, hsorted, hgood⟩ := snapshot_nodup ridOf srt hs mc w0 (.start :: rest)
+  have hobjs : KeysNodup Obj.key (runMonitor mc w0 (.start :: rest)).w.objs := (ms_run mc w0 hw0 rest).2.1.objsNodup
+  generalize (runMonitor mc w0 (.start :: rest)).m.snapshot srt = got at hmem hnd hsorted hgood
+  generalize (runMonitor mc w0 (.start :: rest)).w = w at hmem hobjs
+  have hwant : KeysNodup Obj.key (specMatching mc w) := by
+    rw [specMatching_eq]; exact keysNodup_filter _ _ _ hobjs
+  unfold snapshotExact
+  simp only [Bool.and_eq_true, beq_iff_eq, List.all_eq_true, List.any_eq_true]
+  refine ⟨⟨⟨?_, ?_⟩, ?_⟩, ?_⟩
+  · -- same length: both lists are duplicate-free and have the same elements
+    have h1 : got.Nodup := hnd.imp (fun {a b} hab (e : a = b) => hab (by rw [e]))
+    have h2 : ((specMatching mc w).map (mkEntry mc.cfg)).Nodup := by
+      rw [List.Nodup, List.pairwise_map]
+      exact hwant.imp (fun {a b} hab (e : mkEntry mc.cfg a = mkEntry mc.cfg b) => hab (by rw [← mkEntry_key mc.cfg a, ← mkEntry_key mc.cfg b, e]))
+    have hp := (List.perm_ext_iff_of_nodup h1 h2).2 (fun e => by
+      rw [hmem e, List.mem_map]
+      constructor
+      · rintro ⟨o, ho, rfl⟩; exact ⟨o, ho, rfl⟩
+      · rintro ⟨o, ho, rfl⟩; exact ⟨o, ho, rfl⟩)
+    simpa using hp.length_eq
+  · intro o ho
+    exact ⟨mkEntry mc.cfg o, (hmem _).2 ⟨o, ho, rfl⟩, mkEntry_key _ _⟩
+  · intro p hp
+    -- strictly increasing: sorted, distinct keys, and `Less` separates distinct keys
+    have hpair : got.Pairwise (fun a b => lessGo ridOf a b = true) := by
+      have hboth : got.Pairwise (fun a b => a.key ≠ b.key ∧ lessKey mc.cfg.keepFull ridOf b.key a.key = false) :=
+        hnd.and hsorted
+      refine hboth.imp_of_mem ?_
+      intro a b ha hb hab
+      obtain ⟨oa, rfl, hpa⟩ := hgood a ha
+      obtain ⟨ob, rfl, hpb⟩ := hgood b hb
+      rw [lessGo_eq_lessKey ridOf mc.cfg.keepFull _ _ (mkEntry_isSome _ _) (mkEntry_isSome _ _)]
+      cases hl : lessKey mc.cfg.keepFull ridOf (mkEntry mc.cfg oa).key (mkEntry mc.cfg ob).key with
+      | true => rfl
+      | false =>
+        exfalso
+        apply hab.1
+        refine lessKey_antisymm mc.cfg.keepFull ridOf _ _ ?_ (hinj _ _) hab.2 hl
+        rw [mkEntry_key, mkEntry_key]
+        unfold MonCfg.pred at hpa hpb
+        simp only [Bool.and_eq_true, beq_iff_eq] at hpa hpb
+        rw [hpa.1.1.1.1, hpb.1.1.1.1]
+    exact zip_tail_of_pairwise _ got hpair p hp
+  · intro e he
+    obtain ⟨o, ho, rfl⟩ := (hmem e).1 he
+    exact ⟨o, ho, ⟨rfl, rfl⟩, rfl⟩
+
 /-- non-vacuity: a namespace.labelSelector binding with a name selector; a namespace starts
 matching, objects come and go, the namespace stops matching. -/
 example :
